@@ -365,11 +365,12 @@ def rewrite_R12(text):
     text = re.sub(r"([A-Za-z_][A-Za-z0-9_]*)\.mask\(\)\s*!=\s*([A-Za-z_][A-Za-z0-9_]*)\.mask\(\)", r"!\1.mask_eq(\2)", text)
     text = re.sub(r"([A-Za-z_][A-Za-z0-9_]*)\.mask\(\)\s*>\s*([A-Za-z_][A-Za-z0-9_]*)\.mask\(\)", r"\2.mask_lt(\1)", text)
     # comparisons of representations (never present in /repo; makes such a change decidable, see speclib/base.rs)
-    ID = r"([A-Za-z_][A-Za-z0-9_]*)"
-    text = re.sub(ID + r"\.repr\(\)\.cmp\(&" + ID + r"\.repr\(\)\)", r"\1.repr_cmp(\2)", text)
-    text = re.sub(ID + r"\.repr\(\)\s*==\s*" + ID + r"\.repr\(\)", r"\1.repr_eq(\2)", text)
-    text = re.sub(ID + r"\.repr\(\)\s*!=\s*" + ID + r"\.repr\(\)", r"!\1.repr_eq(\2)", text)
-    text = re.sub(ID + r"\.repr\(\)\s*<\s*" + ID + r"\.repr\(\)", r"\1.repr_lt(\2)", text)
+    ID = r"((?<![A-Za-z0-9_\.\]])[A-Za-z_][A-Za-z0-9_]*(?:\.[A-Za-z0-9_]+|\[[^\]\n]*\])*)"
+    def arg(y): return y if re.fullmatch(r"[A-Za-z_][A-Za-z0-9_]*", y) else "&" + y
+    text = re.sub(ID + r"\.repr\(\)\.cmp\(&" + ID + r"\.repr\(\)\)", lambda m: "%s.repr_cmp(%s)" % (m.group(1), arg(m.group(2))), text)
+    text = re.sub(ID + r"\.repr\(\)\s*==\s*" + ID + r"\.repr\(\)", lambda m: "%s.repr_eq(%s)" % (m.group(1), arg(m.group(2))), text)
+    text = re.sub(ID + r"\.repr\(\)\s*!=\s*" + ID + r"\.repr\(\)", lambda m: "!%s.repr_eq(%s)" % (m.group(1), arg(m.group(2))), text)
+    text = re.sub(ID + r"\.repr\(\)\s*<\s*" + ID + r"\.repr\(\)", lambda m: "%s.repr_lt(%s)" % (m.group(1), arg(m.group(2))), text)
     text = text.replace("std::cmp::Ordering::", "core::cmp::Ordering::")
     return text
 
